@@ -89,7 +89,6 @@ def _ensure_colon(role: 'str') -> 'str':
 def graph_init(self: 'Graph', triples: 'optlist', top: 'val', epidata: 'optodict', metadata: 'optodict') -> 'none':
     modifies(self)
     requires(triples is None or wf_triples(triples))
-    requires(dict_wf(epidata) and dict_wf(metadata))        # (true of every dict, see dict_wf)
     ensures(self.triples == norm_triples(triples if triples is not None else []), label='triples')
     ensures(self._top == top, label='top')
     # triples whose roles already have their colon are taken as they are
@@ -100,7 +99,7 @@ def graph_init(self: 'Graph', triples: 'optlist', top: 'val', epidata: 'optodict
                     and forall_idx(dict_keys(epidata), lambda i, k: dict_get(self.epidata, k) == dict_get(epidata, k))),
             label='epidata')
     ensures(implies(epidata is None, len(dict_keys(self.epidata)) == 0), label='epidata-default')
-    ensures(implies(epidata is not None, dict_eq(self.epidata, epidata)), label='epidata-copied')
+    ensures(implies(epidata is not None and dict_wf(epidata), dict_eq(self.epidata, epidata)), label='epidata-copied')
     ensures(implies(metadata is not None, dict_keys(self.metadata) == dict_keys(metadata)
                     and forall_idx(dict_keys(metadata), lambda i, k: dict_get(self.metadata, k) == dict_get(metadata, k))),
             label='metadata')
